@@ -57,10 +57,10 @@ pub fn c13_powi_neg_is_recip() {
 #[cfg_attr(all(kani, feature = "stubs"), kani::stub(twofloat::TwoFloat::recip, crate::uf::havoc_unary))]
 pub fn c13_powi_extreme_n() {
     if !crate::gen_cells::known("c13_powi_min") {
-        let _ = tf(1.5, 0.0).powi(i32::MIN);
+        let _ = gtf(1.5, 0.0).powi(i32::MIN);
     }
-    let _ = tf(1.5, 0.0).powi(-i32::MAX);
-    let _ = tf(1.5, 0.0).powi(i32::MAX);
+    let _ = gtf(1.5, 0.0).powi(-i32::MAX);
+    let _ = gtf(1.5, 0.0).powi(i32::MAX);
     reached();
 }
 
@@ -84,14 +84,14 @@ pub fn c13_sqrt_domain() {
 #[cfg_attr(kani, kani::proof)]
 pub fn c13_cbrt_ground() {
     if !crate::gen_cells::known("c13_cbrt_zero") {
-        let z = tf(0.0, 0.0).cbrt();
+        let z = gtf(0.0, 0.0).cbrt();
         assert!(z.hi() == 0.0 && z.lo() == 0.0);
-        let zn = tf(-0.0, 0.0).cbrt();
+        let zn = gtf(-0.0, 0.0).cbrt();
         assert!(zn.hi() == 0.0 && zn.lo() == 0.0);
     }
-    let a = tf(8.0, 0.0).cbrt();
+    let a = gtf(8.0, 0.0).cbrt();
     assert!(spec_valid(a) && a.hi() == 2.0 && a.lo().abs() <= 32.0 * pow2(-106));
-    let b = tf(-27.0, 0.0).cbrt();
+    let b = gtf(-27.0, 0.0).cbrt();
     assert!(spec_valid(b) && b.hi() == -3.0 && b.lo().abs() <= 48.0 * pow2(-106));
     reached();
 }
